@@ -4,6 +4,7 @@ import ExponaxModel.Proofs.LayoutLemmas
 import ExponaxModel.Proofs.DFT
 import ExponaxModel.Proofs.ExactLinearModes
 import ExponaxModel.Proofs.ExactLinearIndex
+import ExponaxModel.Proofs.SpectralLayoutEq
 /-
 C04 — grid, FFT and Fourier-coefficient conventions are mutually consistent.
 Index / layout part (all `N`, no bound).  The DFT part (round trip, single-mode
@@ -198,5 +199,40 @@ theorem C04_stored_modes (D N : ℕ) (hD : 0 < D) (hN : 0 < N) (κ : List ℤ) (
     (∃! h, h < numModes D N ∧ wnFlat D N h = κ) ∧
       ((∃ h < numModes D N, wnFlat D N h = ExactLinear.negK κ) ↔ κ.getD (D - 1) 0 = 0) :=
   ⟨ExactLinear.stored_existsUnique D N hD hN κ hκ hl, ExactLinear.partner_stored_iff D N hD hN κ hκ hl⟩
+
+/-! ### the layout helpers of `_spectral.py` / `_utils.py`, REGENERATED from their source on every run
+(`Gen.SpectralLayout.*`, per array entry), equal the model functions every theorem above speaks about -/
+open Exponax.Gen.SpectralLayout in
+theorem C04_generated_layout (D N : ℕ) (hD : 1 ≤ D) (hN : 0 < N) (h : List ℕ) (p q : ℤ) (hq : 0 < q) :
+    build_wavenumbers D N "ij" h = wnVec D N h ∧
+    wavenumber_shape D N = wavenumberShape D N ∧
+    low_pass_filter_mask D N ((p : ℚ) / (q : ℚ)) true "ij" h = lowPassSep (wnVec D N h) p q ∧
+    oddball_filter_mask D N h = oddball N (wnVec D N h) ∧
+    build_scaling_array D N "norm_compensation" "ij" h = some (scaling D N 0 h) ∧
+    build_scaling_array D N "reconstruction" "ij" h = some (scaling D N 1 h) ∧
+    build_scaling_array D N "coef_extraction" "ij" h = some (scaling D N 2 h) :=
+  ⟨build_wavenumbers_ij D N hD hN h, wavenumber_shape_eq D N, low_pass_filter_mask_sep D N hD hN p q hq h,
+   oddball_filter_mask_eq D N hD hN h, build_scaling_array_norm_compensation D N hD hN h,
+   build_scaling_array_reconstruction D N hD hN h, build_scaling_array_coef_extraction D N hD hN h⟩
+
+/-- `indexing="xy"` in 2-D swaps the two wavenumber components consistently with the transform (the repaired D2) -/
+theorem C04_generated_xy (N : ℕ) (hN : 0 < N) (h : List ℕ) :
+    Gen.SpectralLayout.build_wavenumbers 2 N "xy" h = [wn 2 N h 1, wn 2 N h 0] :=
+  build_wavenumbers_xy_two N hN h
+
+/-- regenerated mode slices resolve to the model's blocks; regenerated grid is left-inclusive / right-exclusive with
+    spacing L/N; regenerated `wrap_bc` appends the periodic image -/
+theorem C04_generated_slices_grid_wrap (D N : ℕ) {K : Type} [Field K] (L : K) (full zc : Bool) (idx : List ℕ)
+    (u : List ℕ → K) (C c i : ℕ) (hN : 0 < N) (hc : c < C) :
+    (Gen.SpectralLayout.get_modes_slices D N).map (fun b => (b.tail.zip (wavenumberShape D N)).map
+        fun x => match x with | (s, len) => pySlice len s.1 s.2) = modeBlocks D N ∧
+    Gen.SpectralLayout.make_grid D L N full zc "ij" idx = (List.range D).map (fun d => gridCoord L N zc (idx.getD d 0)) ∧
+    Gen.SpectralLayout.wrap_bc u (C :: List.replicate D N) (c :: unflatten (List.replicate D (N + 1)) i) =
+      u (c :: unflatten (List.replicate D N) (wrapSource D N i)) :=
+  ⟨get_modes_slices_blocks D N, make_grid_ij D N L full zc idx, wrap_bc_eq u C D N c i hN hc⟩
+
+/-- the list of translated functions is pinned: a new layout helper in the source breaks this until it is covered -/
+theorem C04_generated_coverage : Gen.SpectralLayout.generated_functions.length = 15 := by
+  rw [generated_functions_eq]; rfl
 
 end Exponax
